@@ -1,6 +1,7 @@
 package chain
 
 import (
+	"math"
 	"fmt"
 	"math/big"
 	"math/rand"
@@ -483,6 +484,62 @@ func (OracleC27) Judge(w *World, b *BlockCtx, p *ProbeResult) {
 	if tbl.Coin != 0 {
 		w.Probe("c27_custom_price_coin")
 	}
+	// the cheaper of the two routes: when the gas coin has both a bancor reserve and a pool with the
+	// base coin, the route taken must not be clearly dearer than the other one. Costs are bounded
+	// from the pre-transaction state with textbook formulas (constant product without fee as the
+	// lower bound and with a 1% fee as the upper bound of the pool route; the bancor curve in
+	// floating point), so only differences far beyond rounding are judged.
+	if m.GasCoin != 0 && tbl.Coin == 0 && commission != nil && commission.Sign() > 0 && exp.Sign() > 0 {
+		switch m.Data.(type) {
+		case transaction.SendData, transaction.MultisendData, transaction.SetCandidateOnData, transaction.SetCandidateOffData, transaction.EditCandidateData,
+			transaction.EditCandidateCommission, transaction.CreateMultisigData, transaction.EditMultisigData, transaction.VoteCommissionDataV3, transaction.LockStakeData:
+		default:
+			return
+		}
+		coin := p.Before.Coins[m.GasCoin]
+		var rGas, rBase *big.Int
+		for _, pl := range p.Before.Pools {
+			if pl.Coin0 == 0 && pl.Coin1 == m.GasCoin {
+				rBase, rGas = bi(pl.Reserve0), bi(pl.Reserve1)
+			}
+		}
+		if coin == nil || coin.Crr == 0 || rGas == nil {
+			return
+		}
+		reserve, volume := bi(coin.Reserve), bi(coin.Volume)
+		minReserve := new(big.Int).Mul(big.NewInt(10001), big.NewInt(1e18))
+		if new(big.Int).Sub(reserve, exp).Cmp(minReserve) < 0 || new(big.Int).Mul(exp, big.NewInt(2)).Cmp(rBase) > 0 {
+			return // one of the routes is (nearly) unavailable
+		}
+		fl := func(x *big.Int) float64 { f, _ := new(big.Float).SetInt(x).Float64(); return f }
+		bancor := fl(volume) * (1 - math.Pow(1-fl(exp)/fl(reserve), float64(coin.Crr)/100))
+		poolLow := fl(rGas) * fl(exp) / (fl(rBase) - fl(exp))
+		poolHigh := poolLow * 1.01
+		paid := fl(commission)
+		switch p.Tags["tx.commission_conversion"] {
+		case "bancor":
+			if poolHigh < paid*(1-1e-6) && !hasOrdersOn(p.Before, m.GasCoin) {
+				w.Report("C27", "fee", "dearer-route:bancor", fmt.Sprintf("height %d %s: commission %s of coin %d paid through the reserve although the pool route costs at most %.0f (reserves %s/%s)", p.Height, m.Kind, commission, m.GasCoin, poolHigh, rGas, rBase), p.Height)
+				return
+			}
+			w.Probe("c27_cheaper_route_checked_bancor")
+		case "pool":
+			if bancor < paid*(1-1e-6) {
+				w.Report("C27", "fee", "dearer-route:pool", fmt.Sprintf("height %d %s: commission %s of coin %d paid through the pool although the reserve route costs about %.0f (volume %s reserve %s crr %d)", p.Height, m.Kind, commission, m.GasCoin, bancor, volume, reserve, coin.Crr), p.Height)
+				return
+			}
+			w.Probe("c27_cheaper_route_checked_pool")
+		}
+	}
+}
+
+func hasOrdersOn(s *Snap, coin uint64) bool {
+	for _, pl := range s.Pools {
+		if pl.Coin0 == 0 && pl.Coin1 == coin && len(pl.Orders) > 0 {
+			return true
+		}
+	}
+	return false
 }
 
 // affectsRewards: transactions whose own effect moves validators' accrual or total slashed.
@@ -632,6 +689,6 @@ func init() {
 		},
 		Monitors: func(sc *Scenario) []Monitor { return []Monitor{&MonProbe{Oracles: []Prober{OracleC27{}}}} },
 		Distinct: probeDistinct,
-		ExpectProbes: []string{"c27_price_checked", "c27_conservation_checked", "c27_exact_debit", "c27_custom_gas_coin", "c27_custom_price_coin", "c27_ticker_burn"},
+		ExpectProbes: []string{"c27_price_checked", "c27_conservation_checked", "c27_exact_debit", "c27_custom_gas_coin", "c27_custom_price_coin", "c27_ticker_burn", "c27_cheaper_route_checked_bancor", "c27_cheaper_route_checked_pool"},
 	})
 }
